@@ -1411,6 +1411,27 @@ M("SEED-C18-c", ["C18"], [("@patch", "seeded/C18-c/patch.diff", "")], ["C18/stat
 M("SEED-C19-c", ["C19"], [("@patch", "seeded/C19-c/patch.diff", "")], ["C19/table/Will/TopicAlias"])
 M("SEED-C20-c", ["C20"], [("@patch", "seeded/C20-c/patch.diff", "")], ["C20/decode/ContentType"])
 
+# seeds of round 4 (asked for error paths, duplicated computations, orderings that matter on failure, boundary comparisons)
+M("SEED-C01-d", ["C01"], [("@patch", "seeded/C01-d/patch.diff", "")], ["C01/priority/gated/Control"])
+M("SEED-C02-d", ["C02"], [("@patch", "seeded/C02-d/patch.diff", "")], ["C02/remove/removes-the-acknowledged-entry"])
+M("SEED-C03-d", ["C03"], [("@patch", "seeded/C03-d/patch.diff", "")], ["C03/final/PubComp/remove-then-report"])
+M("SEED-C04-d", ["C04"], [("@patch", "seeded/C04-d/patch.diff", "")], ["C04/once/inbound-identifier-space"])
+M("SEED-C05-d", ["C05"], [("@patch", "seeded/C05-d/patch.diff", "")], ["C05/status/table"])
+M("SEED-C06-d", ["C06"], [("@patch", "seeded/C06-d/patch.diff", "")], ["C06/init/capacity-within-tables"])
+M("SEED-C07-d", ["C07"], [("@patch", "seeded/C07-d/patch.diff", "")], ["C07/nz/returns-nonzero"])
+M("SEED-C08-d", ["C08"], [("@patch", "seeded/C08-d/patch.diff", "")], ["C08/atomic/connack-properties"])
+M("SEED-C09-d", ["C09"], [("@patch", "seeded/C09-d/patch.diff", "")], ["C09/len16/Utf8String"])
+M("SEED-C10-d", ["C10"], [("@patch", "seeded/C10-d/patch.diff", "")], ["C10/who/ping-timeout-armed/perform_outbound_step"])
+M("SEED-C11-d", ["C11"], [("@patch", "seeded/C11-d/patch.diff", "")], ["C11/ctor/service#1"])
+M("SEED-C12-d", ["C12"], [("@patch", "seeded/C12-d/patch.diff", "")], ["C12/usable/inflight-read-after-reset"])
+M("SEED-C13-d", ["C13"], [("@patch", "seeded/C13-d/patch.diff", "")], ["C13/progress/read_packet/fill_packet_reader#1"])
+M("SEED-C14-d", ["C14"], [("@patch", "seeded/C14-d/patch.diff", "")], ["C14/tx/disconnect_with/write_all#1"])
+M("SEED-C15-d", ["C15"], [("@patch", "seeded/C15-d/patch.diff", "")], ["C15/read/commit-count"])
+M("SEED-C17-d", ["C17"], [("@patch", "seeded/C17-d/patch.diff", "")], ["C17/slots/released/SubAck/remove-then-report"])
+M("SEED-C18-d", ["C18"], [("@patch", "seeded/C18-d/patch.diff", "")], ["C18/invalidate/fresh/before-any-failure"])
+M("SEED-C19-d", ["C19"], [("@patch", "seeded/C19-d/patch.diff", "")], ["C19/order/disconnect_with/validate-first"])
+M("SEED-C20-d", ["C20"], [("@patch", "seeded/C20-d/patch.diff", "")], ["C20/owned/no-truncation"])
+
 # third round: property-centred behaviour-preserving refactorings (five per property, around that property's anchors)
 for _p in sorted(_glob.glob(_os.path.join(_os.path.dirname(_os.path.abspath(__file__)), "refactors", "rf3", "*.diff"))):
     RF("RF3-" + _os.path.basename(_p)[:-5], ALL19, [("@patch", "selftest/refactors/rf3/" + _os.path.basename(_p), "")])
